@@ -39,19 +39,24 @@ type caseC18 struct {
 	// SlowMs: the source blocks for this long before it delivers its first byte (a starved kernel pool, an HSM); fixed cases
 	// only: 300 ms, and 35 s in the thorough tier.
 	SlowMs int `json:"slow_ms,omitempty"`
+	// StallAt / StallReads: when the stream position reaches StallAt the source answers StallReads consecutive Read calls with
+	// (0, nil) - "nothing yet", which the io.Reader contract allows - and then goes on. StallReads = 0: no stall.
+	StallAt    int `json:"stall_at,omitempty"`
+	StallReads int `json:"stall_reads,omitempty"`
 }
 
 type scriptedReader struct {
-	stream []byte
-	pos    int
-	chunks []int
-	ci     int
-	fault  int
-	style  string
-	reads  int
-	reent  bool
-	deleg  bool
-	slowMs int
+	stallAt, stallReads, stalled int
+	stream                       []byte
+	pos                          int
+	chunks                       []int
+	ci                           int
+	fault                        int
+	style                        string
+	reads                        int
+	reent                        bool
+	deleg                        bool
+	slowMs                       int
 }
 
 var errEntropy = errors.New("scripted entropy failure")
@@ -161,6 +166,10 @@ func (r *scriptedReader) Read(p []byte) (int, error) {
 		}
 		return 0, ferr
 	}
+	if r.stallReads > 0 && r.pos == r.stallAt && r.stalled < r.stallReads {
+		r.stalled++
+		return 0, nil
+	}
 	n := r.chunks[r.ci%len(r.chunks)]
 	r.ci++
 	if n > len(p) {
@@ -168,6 +177,9 @@ func (r *scriptedReader) Read(p []byte) (int, error) {
 	}
 	if n > limit-r.pos {
 		n = limit - r.pos
+	}
+	if r.stallReads > 0 && r.pos < r.stallAt && r.pos+n > r.stallAt {
+		n = r.stallAt - r.pos
 	}
 	copy(p, r.stream[r.pos:r.pos+n])
 	r.pos += n
@@ -265,6 +277,16 @@ var c18 = gen.Register(&gen.Check[caseC18]{
 			c.Chunks = append(c.Chunks, rapid.SampledFrom([]int{32, 1, 31, 7, 16, 33, 64}).Draw(t, "chunk"))
 		}
 		goodEnd := 32 * len(c.Blocks)
+		if gen.Chance(t, "stall", 1, 4) {
+			// the source has nothing for a while: a run of zero-length successful reads in the middle of the stream
+			c.StallAt = rapid.IntRange(1, goodEnd-1).Draw(t, "stallAt")
+			c.StallReads = rapid.SampledFrom([]int{1, 2, 99, 100, 101, 150, 1000, 15, 16, 17, 255, 256, 257, 4096}).Draw(t, "stallReads")
+			if ws := gen.Dict().Words; len(ws) > 0 && gen.Chance(t, "stallDict", 1, 3) {
+				if w := ws[gen.Pick(t, "stallWord", len(ws))]; w > 0 && w < 5000 {
+					c.StallReads = int(w) + rapid.IntRange(-1, 1).Draw(t, "stallPm")
+				}
+			}
+		}
 		switch gen.Pick(t, "faultKind", 4) {
 		case 1: // strictly before the first good block is complete
 			c.Fault = rapid.IntRange(0, goodEnd-1).Draw(t, "fault")
@@ -311,6 +333,10 @@ var c18 = gen.Register(&gen.Check[caseC18]{
 			{Blocks: []string{h(max)}, Tail: tail, Chunks: []int{7}, Fault: 14, Style: "timeout", Prior: p},
 			{Blocks: []string{h(max)}, Tail: tail, Chunks: []int{7}, Fault: 0, Style: "eintr", Prior: p},
 			{Blocks: append(repeatBlocks(h(ref.N), h(new(big.Int)), 300), h(big.NewInt(7))), Tail: tail, Chunks: []int{32}, Fault: -1, Prior: p},
+			{Blocks: []string{h(max)}, Tail: tail, Chunks: []int{32}, Fault: -1, Prior: p, StallAt: 5, StallReads: 100},
+			{Blocks: []string{h(max)}, Tail: tail, Chunks: []int{7}, Fault: -1, Prior: p, StallAt: 31, StallReads: 101},
+			{Blocks: []string{h(ref.N), h(max)}, Tail: tail, Chunks: []int{32}, Fault: -1, Prior: p, StallAt: 37, StallReads: 1000},
+			{Blocks: []string{h(max)}, Tail: tail, Chunks: []int{16}, Fault: -1, Prior: p, StallAt: 16, StallReads: 4096},
 		}
 	},
 	Required: []string{"block>=n", "retry:zero", "retry:n", "fault:before", "fault:after", "chunked", "reentrant-source", "recovered-then-healthy-source", "source-filled-by-another-goroutine", "slow-source"},
@@ -347,10 +373,12 @@ var c18 = gen.Register(&gen.Check[caseC18]{
 			chunked = chunked || ch < 32
 		}
 		o.ClassIf(chunked, "chunked")
+		o.ClassIf(c.StallReads > 0, "stalled-source")
+		o.ClassIf(c.StallReads >= 100, "stalled-source>=100-reads")
 		o.ClassIf(len(c.Blocks) > 64, "long-rejected-run")
 		o.NonTrivialIf(len(c.Blocks) > 1 || c.Fault >= 0 || gen.B(c.Blocks[0]).Cmp(ref.N) >= 0)
 
-		rd := &scriptedReader{stream: stream, chunks: c.Chunks, fault: c.Fault, style: c.Style, reent: c.Reentrant, deleg: c.Delegate, slowMs: c.SlowMs}
+		rd := &scriptedReader{stream: stream, chunks: c.Chunks, fault: c.Fault, style: c.Style, reent: c.Reentrant, deleg: c.Delegate, slowMs: c.SlowMs, stallAt: c.StallAt, stallReads: c.StallReads}
 		o.ClassIf(c.SlowMs > 0, "slow-source")
 		o.ClassIf(c.Reentrant, "reentrant-source")
 		o.ClassIf(c.Delegate, "source-filled-by-another-goroutine")
